@@ -111,6 +111,9 @@ func (t *hty) coq() string {
 		return "go_xerr"
 	case "opt":
 		return "option " + parenT(t.elem.coq())
+	case "rmap":
+		// a map that is only ranged over: the sequence of its entries in the order of that iteration
+		return "list (" + t.params[0].coq() + " * " + t.params[1].coq() + ")"
 	case "func":
 		return t.funcCoq("")
 	}
@@ -217,6 +220,9 @@ func (t *hty) mentions(set map[string]bool) {
 		set[t.name] = true
 	case "slice", "eptr", "esnap", "opt":
 		t.elem.mentions(set)
+	case "rmap":
+		t.params[0].mentions(set)
+		t.params[1].mentions(set)
 	case "func":
 		for _, tp := range t.rawTps {
 			set[tp] = true
@@ -753,6 +759,14 @@ func (g *hgen) typeOf(t types.Type, at ast.Node) *hty {
 		if v.NumFields() == 0 {
 			return htUnit
 		}
+	case *types.Map:
+		// a map: representable only as what a range over it visits (rangeMap in fn_heap_stmt.go);
+		// every other use of a variable of this kind is lost where it occurs
+		kt, et := g.typeOf(v.Key(), at), g.typeOf(v.Elem(), at)
+		if kt == nil || et == nil || (kt.k != "elem" && kt.k != "int" && kt.k != "str") || et.k == "func" || et.k == "slice" {
+			return nil
+		}
+		return &hty{k: "rmap", params: []*hty{kt, et}}
 	case *types.Signature:
 		ft := &hty{k: "func"}
 		for i := 0; i < v.Params().Len(); i++ {
